@@ -244,6 +244,18 @@ def check_assumptions(prop, allowed):
         raise Failure("no theorem in Props/%s.v" % prop)
     d = os.path.join(CACHE, "assum")
     os.makedirs(d, exist_ok=True)
+    # the compiled Props file records the digests of everything it depends on: its hash (with the list of theorems and
+    # the allowed axioms) identifies the answer of the Print Assumptions run
+    vo = os.path.join(COQ, "Props", prop + ".vo")
+    key = hashlib.sha1(open(vo, "rb").read() + repr((thms, sorted(allowed))).encode()).hexdigest()
+    memo = os.path.join(d, "Assum_%s.%s.json" % (prop, key))
+    if os.path.exists(memo):
+        try:
+            cached = json.load(open(memo))
+            if [t for t, _ in cached] == thms:
+                return [(t, ax) for t, ax in cached]
+        except Exception:
+            pass
     src = os.path.join(d, "Assum_%s.v" % prop)
     with open(src, "w") as f:
         f.write("From RV Require Import Props.%s.\n" % prop)
@@ -268,6 +280,11 @@ def check_assumptions(prop, allowed):
         result.append((name, axioms))
     if len(result) != len(thms):
         raise Failure("Print Assumptions output incomplete for %s" % prop, out[-2000:])
+    for old in os.listdir(d):
+        if old.startswith("Assum_%s." % prop) and old.endswith(".json"):
+            os.remove(os.path.join(d, old))
+    with open(memo, "w") as f:
+        json.dump(result, f)
     return result
 
 
@@ -535,7 +552,9 @@ def run_cases(ctx, cases, compare=None, classify=None, limit=10, timeout=900):
     results, ndis, reported = [], 0, 0
     for c, (a, b) in zip(cases, spans):
         ml, il = m[a:b], i[a:b]
-        if compare:
+        if compare is compare_fuel:
+            differs = not fuel_prefix_equal(ml, il)
+        elif compare:
             differs = not all(compare(c, x, y) for x, y in zip(ml, il))
         else:
             differs = ml != il
@@ -558,6 +577,18 @@ def compare_fuel(case, m, i):
     return m == i or m.startswith("(outoffuel)")
 
 
+def fuel_prefix_equal(ml, il):
+    """case-level form of compare_fuel: the lines before the model's first (outoffuel) must be equal; from there
+    on the case decides nothing (the model stopped in the middle of a form, so its state has only part of that form's
+    effects, and an implementation that recursed without bound has overflowed its stack and lost the case)"""
+    for x, y in zip(ml, il):
+        if x.startswith("(outoffuel)"):
+            return True
+        if x != y:
+            return False
+    return True
+
+
 def replay_case(ctx, path, compare=None):
     payload = json.load(open(path))
     case = payload["case"]
@@ -574,9 +605,13 @@ def replay_case(ctx, path, compare=None):
     m = run_lines(DRIVER_EXE, lines, 300, env=menv)
     i = run_lines(HARNESS_EXE, lines, 300)
     bad = 0
+    undecided = False
     for l, x, y in zip(lines, m, i):
-        same = compare(case, x, y) if compare else x == y
-        print(l[:200], "\n   model:", x[:600], "\n   impl: ", y[:600], "" if same else "   <== differs")
+        if compare is compare_fuel and x.startswith("(outoffuel)"):
+            undecided = True
+        same = True if undecided else (compare(case, x, y) if compare else x == y)
+        print(l[:200], "\n   model:", x[:600], "\n   impl: ", y[:600],
+              "   (undecided: the model ran out of fuel)" if undecided else ("" if same else "   <== differs"))
         bad += 0 if same else 1
     return 1 if bad else 0
 
